@@ -1962,7 +1962,7 @@ fn main() {
 		run.finish();
 	}
 
-	let n_short: u64 = run.tier.pick(96, 1200);
+	let n_short: u64 = run.tier.pick(96, 1000);
 	let n_long: u64 = run.tier.pick(24, 192);
 	let n_long_worlds: usize = run.tier.pick(1, 4);
 	let phase_deadline: f64 = run.tier.pick(60.0, 400.0);
@@ -2051,10 +2051,10 @@ fn main() {
 
 	let c = |n: &str| run.counter(n);
 	let req = |name: &str, q: u64, t: u64| run.require(name, c(name), run.tier.pick(q, t));
-	req("runs_completed", 200, 2300);
-	req("runs.long", 40, 320);
-	req("runs_with_end_state_equal_to_reference", 200, 2300);
-	req("final_full_validation_ok", 200, 2300);
+	req("runs_completed", 200, 1800);
+	req("runs.long", 40, 300);
+	req("runs_with_end_state_equal_to_reference", 200, 1800);
+	req("final_full_validation_ok", 200, 1800);
 	req("head_move_events_checked", 1000, 10000);
 	req("header_head_move_events_checked", 600, 6000);
 	req("runs_where_several_threads_moved_the_head", 180, 2000);
